@@ -52,9 +52,21 @@ def swarm_config(rng, durable=True, shards=(1, 2, 3), caps=None):
     return cfg
 
 
-def gen_ops(h, rng, n_ops, types, ctxs, p_flush=0.12, p_compact=0.06, p_read=0.08):
-    """Random DEFINE-free mix of STORE / FLUSH / compaction / checkpoint reads appended to the current lifetime."""
-    for _ in range(n_ops):
+def gen_ops(h, rng, n_ops, types, ctxs, p_flush=0.12, p_compact=0.06, p_read=0.08, force_bad=None):
+    """Random DEFINE-free mix of STORE / FLUSH / compaction / checkpoint reads appended to the current lifetime.
+    force_bad ('blank' | 'field'): one STORE that must be rejected is placed early in the mix (stratified, so that a
+    small batch of histories always contains both kinds instead of meeting them with probability 0.02 per operation)."""
+    bad_at = rng.randrange(0, max(1, n_ops // 3)) if force_bad else -1
+    for opi in range(n_ops):
+        if opi == bad_at:
+            t = rng.choice(types)
+            k = h.new_k()
+            bad = payload_for(h.types[t], k, rng)
+            if force_bad == "blank":
+                h.store(t, rng.choice(["   ", " ", "\t"]), bad, k=k, valid=False)
+            else:
+                bad.pop(next(iter(bad)))
+                h.store(t, rng.choice(ctxs), bad, k=k, valid=False)
         x = rng.random()
         if x < p_flush:
             h.flush()
@@ -119,7 +131,8 @@ class C01:
                         h.define(t, rng.choice(SIMPLE_SCHEMAS))
                 else:
                     h.read_all(tag="after-restart")
-                gen_ops(h, rng, rng.randrange(3, 14), types, ctxs)
+                gen_ops(h, rng, rng.randrange(3, 14), types, ctxs,
+                        force_bad=[None, "blank", None, "field"][i % 4] if li == 0 else None)
                 if rng.random() < 0.5:
                     h.read_all(tag="pre-end")
             last_work = len(h.plan["lifetimes"]) - 1
@@ -976,6 +989,17 @@ class C09(Base):
 
 # ====================================================================== C10
 
+# sort keys beyond 2^53: neighbouring integers that collapse when compared through f64 (ids, nanosecond stamps)
+C10_SCHEMA = dict(A_SCHEMA, big="int")
+BIG_KEYS = [2 ** 53 + d for d in (0, 1, 2, 3, 5)] + [2 ** 62 + 1, 2 ** 62 + 2, -(2 ** 53) - 1, -(2 ** 53) - 2, 7]
+
+
+def c10_payload(k, rng):
+    p = a_payload(k, rng)
+    p["big"] = rng.choice(BIG_KEYS)
+    return p
+
+
 class C10(Base):
     id = "C10"
     technique = "deterministic simulation: ORDER BY/LIMIT/OFFSET slices vs model across shards and tiers; sort-key multiset oracle"
@@ -1003,7 +1027,7 @@ class C10(Base):
                     q["where"] = ("cmp", "amt", rng.choice(["=", "<", ">="]), rng.choice([0, 10, 25]))
                     feat.append("WHERE")
                 if rng.random() < 0.8:
-                    q["order"] = rng.choice(["amt", "amt", "qty", "tag", "at", "note", "k", "timestamp"])
+                    q["order"] = rng.choice(["amt", "amt", "qty", "tag", "at", "note", "k", "timestamp", "big", "big"])
                     q["desc"] = rng.random() < 0.5
                     feat.append("ORDER:" + q["order"] + (":desc" if q["desc"] else ":asc"))
                     if rng.random() < 0.7:
@@ -1020,7 +1044,7 @@ class C10(Base):
             qs.append(("expect_error", {"type": "q", "offset": 1}, "offset-without-limit"))
             return qs
         for i in range(C10.budgets[tier]["histories"]):
-            yield query_history("C10", seed, i, mk, schema=A_SCHEMA, payload=a_payload, shards=(2, 3, 1))
+            yield query_history("C10", seed, i, mk, schema=C10_SCHEMA, payload=c10_payload, shards=(2, 3, 1))
 
 
 
